@@ -200,6 +200,58 @@ func init() {
 		} else {
 			c.Fail("C23c/CalculateMonthlyCredit/credit·min(hours,720)/720", c.P.Pos(cm.Pos()), "the monthly credit is not credit·hours/720 with hours clamped to (0, 720]: it can exceed the credit or go negative")
 		}
+		c.Rule("C23e the credit used for rewards is the time-weighted one: in RewardProvidersAndDelegators every amount a delegation is given for the reward split is CalculateMonthlyCredit of that delegation — directly, or through a helper all of whose returns are CalculateMonthlyCredit of its delegation parameter; no path substitutes the raw amount or another estimate")
+		if rpd := c.Fn("x/dualstaking/keeper.Keeper.RewardProvidersAndDelegators"); rpd != nil {
+			const cmc = "x/dualstaking/keeper.Keeper.CalculateMonthlyCredit"
+			var isCredit func(v ssa.Value, depth int) (bool, string)
+			isCredit = func(v ssa.Value, depth int) (bool, string) {
+				call, ok := unconv(v).(*ssa.Call)
+				if !ok {
+					return false, trunc(ir.Desc(v), 90)
+				}
+				callee := call.Call.StaticCallee()
+				if callee == nil {
+					return false, trunc(ir.Desc(v), 90)
+				}
+				if ir.FuncName(callee) == cmc {
+					return true, ""
+				}
+				if depth <= 0 || callee.Blocks == nil || !inProd(callee) {
+					return false, "the result of " + ir.FuncName(callee)
+				}
+				n := 0
+				for _, r := range c.AllReturns(callee) {
+					for _, leaf := range phiLeaves(RetVal(r.Instr.(*ssa.Return), 0)) {
+						n++
+						if ok, why := isCredit(leaf, depth-1); !ok {
+							return false, ir.FuncName(callee) + " can return " + why
+						}
+					}
+				}
+				return n > 0, "the result of " + ir.FuncName(callee)
+			}
+			nSt := 0
+			ir.EachInstr(rpd, func(in ssa.Instruction) {
+				st, ok := in.(*ssa.Store)
+				if !ok {
+					return
+				}
+				fa, ok := st.Addr.(*ssa.FieldAddr)
+				if !ok || ir.FieldKey(fa) != "x/dualstaking/types.Delegation.Amount" {
+					return
+				}
+				nSt++
+				key := "C23e/RewardProvidersAndDelegators/reward-amount=monthly-credit#" + itoa(nSt)
+				if ok, why := isCredit(st.Val, 2); ok {
+					c.OK(key, c.P.InstrPos(st), "CalculateMonthlyCredit of the delegation")
+				} else {
+					c.Fail(key, c.P.InstrPos(st), "a delegation enters the reward split with "+why+" instead of its CalculateMonthlyCredit: the 30-day time weighting of recent amount changes is bypassed on that path")
+				}
+			})
+			if nSt < 2 {
+				c.Fail("C23e/RewardProvidersAndDelegators/reward-amount=monthly-credit", c.P.Pos(rpd.Pos()), "expected the self delegation and every delegator's delegation to be re-weighted by their monthly credit before the split, found "+itoa(nSt)+" such assignment(s)")
+			}
+		}
 		c.NotCovered("the numeric claims (never above the 30-day maximum, equal to the amount after 30 unchanged days, monotone while unchanged); how SetDelegation stores Credit/CreditTimestamp")
 	})
 
@@ -292,6 +344,97 @@ func init() {
 		c.RequireGuards("C24a", sites, "SetReputationScore",
 			FactHas("benchmark-non-negative", "!call(cosmossdk.io/math.LegacyDec.IsNegative)(param#3)"),
 			FactHas("score-non-negative", "!call(cosmossdk.io/math.LegacyDec.IsNegative)(call(x/pairing/types.Frac.Resolve)("))
+		c.Rule("C24b the table's value is what gets stored, for everyone updated: SetReputationScore appends its score parameter to the pairing-score store on every successful return (no 'unchanged enough' skip: that compares a provider with its own past, not with its peers); in UpdateReputationsForEpochStart every reputation that is stored at this epoch start (SetReputation) is also entered into the per-chain-and-cluster scores collection before the next one is read, so that it is re-scored against the same benchmark as its peers")
+		const pk = "x/pairing/keeper.Keeper."
+		if srs := c.Fn(pk + "SetReputationScore"); srs != nil {
+			isAppend := func(in ssa.Instruction) bool {
+				call := ir.CallOf(in)
+				if call == nil || !strings.HasSuffix(ir.CalleeName(call), "fixationstore/types.FixationStore.AppendEntry") {
+					return false
+				}
+				// the appended value is built from the score parameter
+				last := call.Args[len(call.Args)-1]
+				if mi, ok := last.(*ssa.MakeInterface); ok {
+					last = mi.X
+				}
+				if a := allocOf(last); a != nil {
+					if v, ok := structFieldStores(a)["Score"]; ok && len(srs.Params) == 6 && v == ssa.Value(srs.Params[5]) {
+						return true
+					}
+				}
+				return false
+			}
+			r := c.MustPass(srs, nil, isAppend, func(ret *ssa.Return) bool { return !IsFailureReturn(ret) })
+			if r.OK {
+				c.OK("C24b/SetReputationScore/always-appends-the-given-score", c.P.Pos(srs.Pos()), "every successful return passes reputationsFS.AppendEntry of {Score: score}")
+			} else {
+				c.Fail("C24b/SetReputationScore/always-appends-the-given-score", c.P.Pos(srs.Pos()), "SetReputationScore can return successfully without storing the score it was given ("+r.Witness+"): the provider keeps a stale pairing score while its peers get fresh ones, which can invert their order")
+			}
+		}
+		if ur := c.Fn(pk + "UpdateReputationsForEpochStart"); ur != nil {
+			sets := c.CallsByName(ur, false, pk+"SetReputation")
+			if len(sets) != 1 {
+				c.Undecided("C24b: expected one SetReputation call in UpdateReputationsForEpochStart, found %d", len(sets))
+			} else {
+				set := sets[0].Instr
+				loop := innermostLoop(ur, set.Block())
+				var scoresMap ssa.Value
+				ir.EachInstr(ur, func(in ssa.Instruction) {
+					if mm, ok := in.(*ssa.MakeMap); ok && strings.Contains(mm.Type().String(), "ReputationChainClusterKey") {
+						scoresMap = mm
+					}
+				})
+				if loop == nil || scoresMap == nil {
+					c.Undecided("C24b: the reputations loop or the scores map was not found in UpdateReputationsForEpochStart")
+				} else {
+					records := func(in ssa.Instruction) bool {
+						mu, ok := in.(*ssa.MapUpdate)
+						return ok && mu.Map == scoresMap
+					}
+					seen := map[*ssa.BasicBlock]bool{}
+					var escape ssa.Instruction
+					var walk func(b *ssa.BasicBlock, from int)
+					walk = func(b *ssa.BasicBlock, from int) {
+						if escape != nil {
+							return
+						}
+						for i := from; i < len(b.Instrs); i++ {
+							if records(b.Instrs[i]) {
+								return
+							}
+							if ret, ok := b.Instrs[i].(*ssa.Return); ok {
+								if !IsFailureReturn(ret) {
+									escape = ret
+								}
+								return
+							}
+						}
+						for _, s := range b.Succs {
+							if s == loop.Header {
+								escape = b.Instrs[len(b.Instrs)-1]
+								return
+							}
+							if !seen[s] {
+								seen[s] = true
+								walk(s, 0)
+							}
+						}
+					}
+					idx := 0
+					for i, in := range set.Block().Instrs {
+						if in == set {
+							idx = i + 1
+						}
+					}
+					walk(set.Block(), idx)
+					if escape == nil {
+						c.OK("C24b/UpdateReputationsForEpochStart/stored=>entered-into-scores", c.P.InstrPos(set), "every path from SetReputation to the next iteration passes scores[chain,cluster] = …")
+					} else {
+						c.Fail("C24b/UpdateReputationsForEpochStart/stored=>entered-into-scores", c.P.InstrPos(escape), "a reputation can be stored for this epoch start and the loop go on (or the function return) without entering it into the scores collection: its pairing score is not recomputed against this epoch's benchmark while its peers' are")
+					}
+				}
+			}
+		}
 		c.NotCovered("numeric bounds of the stored value; order preservation across the benchmark computation; time decay keeping reputations valid")
 	})
 }
